@@ -43,6 +43,9 @@ theorem hasBit_iff (w bit : Nat) : hasBit w bit = true ↔ w &&& bit ≠ 0 := by
 theorem hasBit_false_iff (w bit : Nat) : hasBit w bit = false ↔ w &&& bit = 0 := by
   simp [hasBit]
 
+/-- a record with only the hostname set, stored under 1.1.1.1:10480 (for the examples) -/
+def hostRec (h : List Char) : Stored := { addr := ⟨⟨1, 1, 1, 1⟩, 10480⟩, info := { hostname := h } }
+
 /-- the two hostname members of the bodies `serverBody` / `detailBody` make -/
 theorem serverBody_hostnames (rec : Stored) :
     (serverBody rec).bind RespBody.hostnames = some (Styles.toHTML rec.info.hostname, Styles.clean rec.info.hostname) := rfl
